@@ -149,17 +149,28 @@ func runC31(c *Ctx) {
 			c.fail("C31.kex-complete", "(*handshakeTransport).kexLoop", f, "anchors not found (enterKeyExchange, sentInitMsg = nil, flush, truncate, Broadcast)")
 		} else {
 			held := true
-			for _, in := range []ssa.Instruction{clr, push[0], trunc, bc} {
+			for _, in := range []ssa.Instruction{clr, push[0], trunc} {
 				if !li.at(in).holds("", ".mu") {
 					held = false
 				}
 			}
-			// no Unlock between the clear and the broadcast
+			// no Unlock between the clear and the truncation (one critical
+			// section); the wake-up itself may legally follow the Unlock but
+			// must happen before the loop re-locks or the function returns
 			isUnlock := func(in ssa.Instruction) bool {
 				p, d := lockOp(in)
 				return d < 0 && strings.HasSuffix(p, ".mu")
 			}
-			early := passBefore(clr, func(in ssa.Instruction) bool { return in == bc }, isUnlock)
+			early := passBefore(clr, func(in ssa.Instruction) bool { return in == ssa.Instruction(trunc) }, isUnlock)
+			if early == nil {
+				early = passBefore(trunc, func(in ssa.Instruction) bool { return in == bc }, func(in ssa.Instruction) bool {
+					if p, d := lockOp(in); d > 0 && strings.HasSuffix(p, ".mu") {
+						return true
+					}
+					_, isRet := in.(*ssa.Return)
+					return isRet
+				})
+			}
 			order := precedes(eke[0], clr) && precedes(clr, trunc) && precedes(trunc, bc)
 			// flush precedes truncate on every path: truncation unreachable from clear without passing the flush loop header
 			h := innermostLoopHeader(push[0].Block())
@@ -216,15 +227,17 @@ func runC31(c *Ctx) {
 			isBC := func(in ssa.Instruction) bool {
 				return isCallTo(in, "(*sync.Cond).Broadcast") && isField(callCommon(in).Args[0], "handshakeTransport", "writeCond")
 			}
+			// a wake-up may legally follow the Unlock; it must come before the
+			// function returns or takes the lock again
 			isRelease := func(in ssa.Instruction) bool {
-				if p, d := lockOp(in); d < 0 && strings.HasSuffix(p, ".mu") {
+				if p, d := lockOp(in); d > 0 && strings.HasSuffix(p, ".mu") {
 					return true
 				}
 				_, isRet := in.(*ssa.Return)
 				return isRet
 			}
 			bad := passBefore(st, isBC, isRelease)
-			c.check(bad == nil, "C31.error-wakes", fmt.Sprintf("writeError store#%d in %s", i, fnName(f)), st, "followed by writeCond.Broadcast before t.mu is released", "writeError is set and t.mu released without waking writers parked on writeCond")
+			c.check(bad == nil, "C31.error-wakes", fmt.Sprintf("writeError store#%d in %s", i, fnName(f)), st, "followed by writeCond.Broadcast before the function returns or re-locks", "writeError is set without waking writers parked on writeCond")
 		}
 	}
 	// ---- readLoop shutdown
